@@ -486,6 +486,14 @@ def run_fastq(case):
     )
     s0, sc0 = fastq.get_sequence(r)
     o.check_eq((str(s0), [int(x) for x in sc0]), (entries[0]["s"], want[0][2]), "fastq_entries_in_order", "get_sequence()")
+    # the caller owns the returned score arrays: editing them in place must not change what the
+    # file object - or a later parse of the same text - returns
+    for h, (_, sc) in r.items():
+        if isinstance(sc, np.ndarray) and sc.flags.writeable and len(sc):
+            sc[...] = 99
+    o.check_eq(_fastq_items(r.items()), want, "fastq_scores", "items() after the previously returned score arrays were edited in place")
+    r3 = fastq.FastqFile.read(io.StringIO(text), offset=offset)
+    o.check_eq(_fastq_items(r3.items()), want, "fastq_scores", "second parse of the same text after returned score arrays were edited in place")
 
     wrap = cpl is not None and any(len(e["s"]) > cpl for e in entries)
     at_plus = any(c in "@+" for e in entries for c in _score_line_starts(e["q"], cpl))
@@ -904,7 +912,7 @@ def st_edit_fasta(tier):
     return gen()
 
 
-def _mapping_history(o, case, new_file, reread, put, view, label_value):
+def _mapping_history(o, case, new_file, reread, put, view, label_value, bad_put=None):
     """Shared interpreter for FastaFile / FastqFile histories.
 
     new_file() -> empty object; reread(text) -> parsed object; put(f, key, value);
@@ -967,6 +975,18 @@ def _mapping_history(o, case, new_file, reread, put, view, label_value):
                 continue
             o.label("op=reload")
             f = reread(_written(f))
+        elif name == "set_invalid":
+            # an edit the file must refuse: whatever it does to the old entry, text and parsed view
+            # have to stay consistent afterwards (the model is re-synchronised from the file's own text)
+            if bad_put is None:
+                continue
+            h = pool[op[1] % len(pool)]
+            o.label("op=set_invalid_existing" if h in model else "op=set_invalid_new")
+            if o.expect_raises((ValueError, OverflowError, TypeError), lambda: bad_put(f, h), "invalid_edit_refused", f"step {step}: scores that cannot be encoded") is None:
+                return
+            text = str(f)
+            model = dict(view(reread(text))) if text.strip() else {}
+            nontrivial = nontrivial or len(model) >= 1
         if not check(step):
             return
     o.mark_nontrivial(nontrivial)
@@ -1012,11 +1032,13 @@ def st_edit_fastq(tier):
             init.append([draw(st.integers(0, 7)), *entry()])
         ops = []
         for _ in range(draw(st.integers(1, nops))):
-            kind = draw(st.sampled_from(["set", "set", "del", "reload"]))
+            kind = draw(st.sampled_from(["set", "set", "del", "reload", "set", "set_invalid"]))
             if kind == "set":
                 ops.append(["set", draw(st.integers(0, 7)), *entry()])
             elif kind == "del":
                 ops.append(["del", draw(st.integers(0, 7))])
+            elif kind == "set_invalid":
+                ops.append(["set_invalid", draw(st.integers(0, 7))])
             else:
                 ops.append(["reload"])
         return {
@@ -1053,6 +1075,7 @@ def run_edit_fastq(case):
         put,
         lambda f: [(h, (s, [int(x) for x in sc])) for h, (s, sc) in f.items()],
         lambda val: (val[0], [ord(c) - off for c in val[1]]),
+        bad_put=lambda f, h: f.__setitem__(h, ("ACGT", np.array([100, 3, 100, 5]))),
     )
     if any(c in "@+" for op in case["ops"] if op[0] == "set" for c in _score_line_starts(op[3], cpl)):
         o.label("score_line_starts_with_@_or_+")
